@@ -590,11 +590,13 @@ func ruleControlState(r *Report, p *Program) {
 		r.Fatal("J4", "types.ControlState", "JSON methods not found")
 		return
 	}
-	table := stringTable(mj)
+	// the writer as a map value -> text (whatever its form: table, switch, map): walked over the 256 values of
+	// the underlying byte with finite-domain refinement
+	table := writerTexts(p, mj)
 	if len(table) == 0 {
 		// the writer may delegate to String()
 		if st := methodOf(p, nt, "String"); st != nil {
-			table = stringTable(st)
+			table = writerTexts(p, st)
 		}
 	}
 	bad := ""
@@ -630,6 +632,68 @@ func ruleControlState(r *Report, p *Program) {
 		bad = fmt.Sprintf("reader accepts %d texts, the writer emits %d distinct non-empty texts", n, nonEmpty(table))
 	}
 	r.Check(bad == "" && n > 0, "J4", "types.ControlState", p.Pos(uj.Pos()), fmt.Sprintf("%d texts round-trip", n), bad)
+}
+
+// writerTexts: for a method of a small integer type that returns a string, the text per receiver value
+// (index = value; "" where the text is empty or not a constant).
+func writerTexts(p *Program, fn *ssa.Function) []string {
+	if fn == nil || len(fn.Params) == 0 || !isIntType(fn.Params[0].Type()) {
+		return nil
+	}
+	lo, hi := intRange(fn.Params[0].Type())
+	if lo < -65536 || hi > 65536 {
+		// a wide type: only the values 0..255 can come from a protocol byte
+		lo, hi = 0, 255
+	}
+	w := NewWalker(p)
+	w.Finite = true
+	w.LoopFuel = 5
+	w.Inline = typesHelpers(p)
+	out := map[int64]string{}
+	max := int64(-1)
+	for _, pa := range w.Walk(fn, []*Term{{Op: "param", Name: "v", Typ: fn.Params[0].Type()}}, nil) {
+		if pa.Outcome != "return" || len(pa.Results) == 0 {
+			continue
+		}
+		reg, ok := pa.State.Ints["v"]
+		if !ok {
+			reg = IntervalSet{{lo, hi}}
+		}
+		reg = reg.Intersect(IntervalSet{{lo, hi}})
+		res := pa.Results[0]
+		for _, v := range valuesOf(reg) {
+			txt := ""
+			if s, ok := res.StrVal(); ok {
+				txt = s
+			} else if (res.Op == "index" || res.Op == "lookup") && len(res.Args) == 2 {
+				if i, ok := evalAt(res.Args[1], "v", v); ok {
+					els := res.Args[0].Args
+					if res.Args[0].Op == "sref" {
+						els = srefElems(res.Args[0])
+					}
+					if i >= 0 && int(i) < len(els) {
+						txt, _ = els[i].StrVal()
+					}
+				}
+			}
+			if txt != "" {
+				out[v] = txt
+				if v > max {
+					max = v
+				}
+			}
+		}
+	}
+	if max < 0 {
+		return nil
+	}
+	table := make([]string, max+1)
+	for v, t := range out {
+		if v >= 0 {
+			table[v] = t
+		}
+	}
+	return table
 }
 
 func nonEmpty(t []string) int {
@@ -723,6 +787,48 @@ func ruleWeekdays(r *Report, p *Program) {
 				}
 			}
 		}
+	}
+	if n == 0 {
+		// a lookup table text -> weekday, filled by the package initialiser and looked up by the reader
+		visitInstrs(uj, nil, 0, map[*ssa.Function]bool{}, func(in ssa.Instruction, env *cfEnv) {
+			lk, ok := in.(*ssa.Lookup)
+			if !ok {
+				return
+			}
+			g := globalLoaded(lk.X, env, 0)
+			if g == nil {
+				return
+			}
+			init := initFn(g)
+			for _, sv := range storedInto(init, g) {
+				mm, ok := sv.(*ssa.MakeMap)
+				if !ok {
+					continue
+				}
+				for _, b := range init.Blocks {
+					for _, in2 := range b.Instrs {
+						mu, ok := in2.(*ssa.MapUpdate)
+						if !ok || mu.Map != ssa.Value(mm) {
+							continue
+						}
+						kc, ok1 := mu.Key.(*ssa.Const)
+						vc, ok2 := mu.Value.(*ssa.Const)
+						if !ok1 || !ok2 || kc.Value == nil || vc.Value == nil || !isStringType(kc.Type()) {
+							continue
+						}
+						text, err := unquote(kc.Value.ExactString())
+						if err != nil {
+							continue
+						}
+						day := time.Weekday(vc.Int64())
+						n++
+						if strings.ToLower(day.String()) != text {
+							bad = fmt.Sprintf("reader maps %q to %v, whose written name is %q", text, day, day.String())
+						}
+					}
+				}
+			}
+		})
 	}
 	r.Check(bad == "" && n == 7, "J4", "types.Weekdays", p.Pos(uj.Pos()), fmt.Sprintf("%d weekday names", n), bad+fmt.Sprintf(" (%d of 7 names handled)", n))
 }
